@@ -83,8 +83,8 @@ def gen_cases(rng, tier, shard, nshards):
                   'known': i % 2 == 0} for i in range(30 if q else 500)])
     fams.append([{'fam': 'pair', 'seed': rng.getrandbits(48), 'liar': PAIR_LIARS[(i + shard) % len(PAIR_LIARS)], 'liar_first': (i // 2) % 2 == 0,
                   'known': i % 2 == 0} for i in range(28 if q else 500)])
-    fams.append([{'fam': 'request_cap', 'seed': rng.getrandbits(48), 'padding': PADDINGS[(i + shard) % len(PADDINGS)]} for i in range(8 if q else 120)])
-    fams.append([{'fam': 'slow_link', 'seed': rng.getrandbits(48), 'timeouts': list(TIMEOUTS[(i + shard) % len(TIMEOUTS)])} for i in range(5 if q else 80)])
+    fams.append([{'fam': 'request_cap', 'seed': rng.getrandbits(48), 'padding': PADDINGS[(i + shard) % len(PADDINGS)]} for i in range(4 if q else 120)])
+    fams.append([{'fam': 'slow_link', 'seed': rng.getrandbits(48), 'timeouts': list(TIMEOUTS[(i + shard) % len(TIMEOUTS)])} for i in range(4 if q else 80)])
     while any(fams):
         for f, w in zip(fams, (1, 4, 1, 1, 1, 1, 1)):
             for _ in range(w):
@@ -521,6 +521,11 @@ async def _liar(rec, case, loop):
                                       {'liar': kind})
         elif kind in ('excess',):
             pass
+        # ---- X6: a length the client knew beforehand (from the stream descriptor) is not the peer's to change
+        if known and not verified and blob.get_length() != len(content):
+            rec.violation('C10/X6/trusted-length-changed-by-peer' + (f'/{kind}' if not kind.startswith('wrong_length') else '/wrong_length'),
+                          f'the client knew the blob is {len(content)} bytes long; after liar {kind} the blob object says {blob.get_length()}',
+                          {'liar': kind, 'true_length': len(content), 'blob_length_after_liar': blob.get_length()})
         # ---- X6: the same blob object, now from an honest server
         if not verified:
             rec.hit('X6.liar_then_honest')
@@ -820,6 +825,367 @@ async def _pair(rec, case, loop):
                 x[1].close()
         rec.case(['pair', kind, cls, case['known'], liar_first, plans['liar'], plans['honest']],
                  sample={'arrangement': 'pair', 'liar': kind, 'liar_first': liar_first, 'blob': cls, 'length': len(content), 'verified': ok})
+        sbm.stop()
+        cbm.stop()
+        await sst.close()
+        await cst.close()
+    finally:
+        shutil.rmtree(base, ignore_errors=True)
+
+
+# ------------------------------------------------------------------------------ the real BlobServer on the in-memory net
+class _MemServer:
+    """what BlobServer.start_server uses of the object loop.create_server returns"""
+    def __init__(self, net, key):
+        self.net, self.key = net, key
+
+    async def __aenter__(self):
+        return self
+
+    async def __aexit__(self, *exc):
+        self.close()
+
+    def close(self):
+        self.net.servers.pop(self.key, None)
+
+    async def serve_forever(self):
+        await self.net.loop.create_future()
+
+
+class _WindowPipe(memnet.Pipe):
+    """a direction of a slow link: at most one fragment per `pace` virtual seconds (also when the writer hands the bytes over piecemeal
+    and the buffer runs empty in between), and after every delivery the writing transport re-evaluates its flow control"""
+    src = None
+    pace = 0.0
+    not_before = 0.0
+
+    def _schedule(self, delay):
+        super()._schedule(max(delay or 0, self.not_before - self.net.loop.time()))
+
+    def _deliver(self):
+        if self.buf and self.dst is not None and not self.dst._paused:
+            self.not_before = self.net.loop.time() + self.pace
+        super()._deliver()
+        src = self.src
+        if src is not None and not src._lost and src._protocol is not None:
+            src._maybe_resume_protocol()
+
+
+class _WindowTransport(memnet.MemTransport):
+    """MemTransport with a finite send window (asyncio's write flow control: pause_writing above the high-water mark of undelivered
+    bytes, resume_writing below the low-water mark), as a socket whose peer reads slowly or not at all"""
+    def get_write_buffer_size(self):
+        return len(self._out.buf)
+
+    def write(self, data):
+        super().write(data)
+        if not self._closing and not self._lost:
+            self._maybe_pause_protocol()
+
+
+async def windowed_connect(net, protocol_factory, host, port, pace=0.0):
+    """Net.connect, then the server->client direction gets the send window and the pace (nothing has flowed yet)"""
+    tr, proto = await net.connect(protocol_factory, host, port)
+    conn = net.connections[-1]
+    conn.s2c.__class__ = _WindowPipe
+    conn.s2c.src, conn.s2c.pace = conn.server_tr, pace
+    conn.server_tr.__class__ = _WindowTransport
+    return tr, proto
+
+
+def serve_in_memory(net, loop, windowed=False):
+    """loop.create_server (what BlobServer.start_server calls) registers the protocol factory on the in-memory net"""
+    async def create_server(protocol_factory, host=None, port=None, **kw):
+        net.listen(host, port, protocol_factory)
+        return _MemServer(net, (host, port))
+    loop.create_server = create_server
+    if windowed:
+        async def create_connection(protocol_factory, host=None, port=None, **kw):
+            return await windowed_connect(net, protocol_factory, host, port, pace=getattr(net, 'link_pace', 0.0))
+        loop.create_connection = create_connection
+
+
+class _Raw(asyncio.Protocol):
+    """a bare client driven by hand"""
+    def __init__(self):
+        self.got = bytearray()
+        self.t = None
+
+    def connection_made(self, t):
+        self.t = t
+
+    def data_received(self, d):
+        self.got += d
+
+
+# ------------------------------------------------------------------------------ arrangement (vi): one request, many fragmentations
+def padded_request(r, h, kind, size):
+    """a well-formed download request for the held blob h, blown up to exactly `size` bytes; exactly one closing brace, at the very end
+    (so that no fragment but the last one can look complete to the server)"""
+    from lbry.blob_exchange.serialization import BlobRequest
+    d = BlobRequest.make_request_for_blob_hash(h).to_dict()
+    plain = json.dumps(d).encode()
+    if size is None or size <= len(plain):
+        raw = plain
+    elif kind == 'leading_blanks':
+        raw = bytes(r.choice(b' \t\n\r') for _ in range(size - len(plain))) + plain
+    elif kind == 'extra_member':
+        d['padding'] = ''
+        room = size - len(json.dumps(d).encode())
+        if room < 0:
+            return padded_request(r, h, 'leading_blanks', size)
+        d['padding'] = 'x' * room
+        raw = json.dumps(d).encode()
+    else:   # an availability question about many blobs: the held one first, then hashes nobody has; the last entry is cut to fit
+        d['requested_blobs'] = [h, '']
+        room = size - len(json.dumps(d).encode())
+        if room < 0:
+            return padded_request(r, h, 'leading_blanks', size)
+        while room > 100:
+            d['requested_blobs'][-1] = r.randbytes(48).hex()
+            d['requested_blobs'].append('')
+            room = size - len(json.dumps(d).encode())
+        d['requested_blobs'][-1] = r.randbytes(50).hex()[:room]
+        raw = json.dumps(d).encode()
+    assert (size is None or size <= len(plain) or len(raw) == size) and raw.count(b'}') == 1 and raw.endswith(b'}'), (kind, size, len(raw))
+    return raw
+
+
+def fragmentations(r, size, cap):
+    """name -> the fragment sizes in which a request of `size` bytes arrives"""
+    out = {'bytes': [1] * size, 'halves': [(size + 1) // 2], 'brace_alone': [size - 1], 'small_head': [r.choice([1, 10, 30])]}
+    for name, k in (('below_cap_chunks', cap - 1), ('medium_chunks', r.choice([100, 400, 1000]))):
+        out[name] = [k] * (size // k)
+    cuts = sorted(r.sample(range(1, size), min(size - 1, r.choice([1, 2, 3]))))
+    out['random_cuts'] = [b - a for a, b in zip([0] + cuts, cuts)]
+    for name, frags in out.items():
+        if sum(frags) < size:
+            frags.append(size - sum(frags))
+        assert sum(frags) == size and min(frags) > 0, (name, size)
+    return out
+
+
+def request_verdict(wire, closed, h, content):
+    if not wire:
+        return 'refused' if closed else 'ignored'
+    try:
+        obj, end = json.JSONDecoder().raw_decode(wire[:4096].decode('latin1'))
+    except ValueError:
+        return 'answered-with-garbage'
+    inc = obj.get('incoming_blob') if isinstance(obj, dict) else None
+    if isinstance(inc, dict) and inc.get('blob_hash') == h and wire[end:] == content:
+        return 'served'
+    return 'answered-without-the-blob'
+
+
+async def _request_cap(rec, case, loop):
+    """the same request byte string is sent on fresh connections to the real BlobServer, once in one segment and then cut in several
+    ways.  'However the TCP byte stream is fragmented or coalesced': what the server does with it - stream the blob, or drop the
+    connection without an answer (oversized request) - must be the same every time, and ordinary requests are still served afterwards."""
+    boot.import_lbry()
+    from lbry.blob_exchange import server as server_module
+    r = random.Random(case['seed'])
+    kind = case['padding']
+    cap = int(getattr(server_module, 'MAX_REQUEST_SIZE', 1200))
+    base = tempfile.mkdtemp(dir=_TMP['dir'])
+    net = memnet.Net(loop)
+    net.install()
+    serve_in_memory(net, loop)
+    try:
+        sbm, sst, sdir = await make_manager(loop, base, 'server')
+        content = blob_content(r, r.choice(['tiny', 'small', 'small', 'sd']))
+        h = await add_blob(sbm, content)
+        held = {h: content}
+        server = server_module.BlobServer(loop, sbm, 'bQEaw42GXsgCAGio1nxFncJSyRmnztSCjP', idle_timeout=IDLE, transfer_timeout=XFER)
+        server.start_server(3333, '10.0.0.1')
+        await server.started_listening.wait()
+
+        async def exchange(raw, sizes):
+            it = iter(sizes)
+            net.plan_factory = lambda d: (lambda avail: (next(it, avail), 0)) if d == 'c2s' else make_plan(r, 'all')
+            tr, proto = await net.connect(_Raw, '10.0.0.1', 3333)
+            conn = net.connections[-1]
+            tr.write(raw)
+            await asyncio.sleep(0.2)        # virtual; the clock only moves once every fragment is delivered and all file reads are done
+            v = request_verdict(bytes(conn.s2c.wire), conn.server_tr._lost or conn.server_tr._closing, h, content)
+            tr.close()
+            return v
+        sizes = [cap - 1, cap, cap + 1, cap + r.randrange(2, cap - 2), 2 * cap - 2, 2 * cap - 1 + r.randrange(0, 3000), r.randrange(400, cap - 1)]
+        r.shuffle(sizes)
+        verdicts = {}
+        for size in sizes + [None]:        # None: the plain request, last ("keeps serving others")
+            raw = padded_request(r, h, kind, size)
+            whole = plain = await exchange(raw, [len(raw)])
+            verdicts[len(raw)] = whole
+            rec.hit('X7.refused_whole' if whole == 'refused' else 'X7.served_whole' if whole == 'served' else 'X7.other_whole')
+            if whole == 'served' and len(raw) >= cap:
+                rec.log('X7.request_of_cap_size_or_more_answered_in_one_segment')
+            if whole == 'refused' and len(raw) < cap:
+                rec.log('X7.request_below_cap_refused_in_one_segment')
+            for style, frags in fragmentations(r, len(raw), cap).items():
+                got = await exchange(raw, frags)
+                rec.hit('X7.request_verdict_checked')
+                if len(raw) >= cap and max(frags) < cap:
+                    rec.hit('X7.oversized_in_fragments_below_cap')
+                if got != whole:
+                    mech = ('refused-request-answered-when-fragmented' if whole == 'refused' else
+                            'served-request-not-served-when-fragmented' if whole == 'served' else 'verdict-depends-on-fragmentation')
+                    rec.violation(f'C10/X7/{mech}/{kind}',
+                                  f'a {len(raw)}-byte download request for a held blob ({kind}; the server\'s request cap is {cap}) sent in one '
+                                  f'segment is {whole}, the same bytes cut as {style} ({len(frags)} fragments: {frags[:4]}{"..." if len(frags) > 4 else ""}) are {got}',
+                                  {'request_bytes': len(raw), 'padding': kind, 'cap': cap, 'fragmentation': style, 'first_fragments': frags[:6],
+                                   'whole': whole, 'fragmented': got, 'request_head': raw[:80]})
+        if plain != 'served':
+            rec.violation('C10/X5/plain-request-not-served-after-oversized-requests',
+                          f'after {len(sizes)} padded requests on other connections the plain {len(raw)}-byte request for the held blob is {plain}',
+                          {'padding': kind, 'verdicts': sorted(verdicts.items())})
+        for conn in net.connections:
+            check_wire(rec, conn.s2c.wire, held, conn.server_tr._lost, f'request_cap:{kind}')
+        rec.case(['request_cap', kind, sorted(verdicts)], sample={'arrangement': 'request_cap', 'padding': kind, 'cap': cap, 'blob_length': len(content),
+                                                                   'verdict_by_request_size': sorted(verdicts.items()), 'connections': len(net.connections)})
+        server.stop_server()
+        sbm.stop()
+        await sst.close()
+    finally:
+        shutil.rmtree(base, ignore_errors=True)
+
+
+# ------------------------------------------------------------------------------ arrangement (vii): slow link, configured timeouts
+async def _slow_link(rec, case, loop):
+    """the real BlobServer configured with idle_timeout != transfer_timeout, on a link with a finite send window.  (a) an honest client
+    that reads slowly - the transfer lasts T, inside transfer_timeout and where possible longer than idle_timeout - still ends with the
+    verified blob, and so does its next request on that connection; (b) a reader that stalls mid-blob, and a connection that never says
+    anything, are closed by idle_timeout + transfer_timeout while an honest client is served; (c) X4 on every connection."""
+    boot.import_lbry()
+    from lbry.blob_exchange.server import BlobServer
+    from lbry.blob_exchange.client import request_blob
+    from lbry.blob_exchange.serialization import BlobRequest
+    r = random.Random(case['seed'])
+    idle, xfer = case['timeouts']
+    base = tempfile.mkdtemp(dir=_TMP['dir'])
+    net = memnet.Net(loop)
+    net.install()
+    serve_in_memory(net, loop, windowed=True)
+    try:
+        sbm, sst, sdir = await make_manager(loop, base, 'server')
+        cbm, cst, cdir = await make_manager(loop, base, 'client')
+        big = r.randbytes(r.choice([150000, 200000, 300000, 300000, 2 ** 20]))      # more than the send window; 2 MiB transfers: honest family
+        smalls = [blob_content(r, 'small'), blob_content(r, 'small')]
+        held = {}
+        for c in [big] + smalls:
+            held[await add_blob(sbm, c)] = c
+        hb, hs, hs2 = list(held)
+        server = BlobServer(loop, sbm, 'bQEaw42GXsgCAGio1nxFncJSyRmnztSCjP', idle_timeout=idle, transfer_timeout=xfer)
+        server.start_server(3333, '10.0.0.1')
+        await server.started_listening.wait()
+        pt = max(idle, xfer) + 100      # the client is patient: only the server's timeouts are under test here
+        # ---- (a) slow honest reader
+        T = idle + (xfer - idle) * r.uniform(0.2, 0.7) if idle < xfer else xfer * r.uniform(0.2, 0.7)
+        step = r.choice([4096, 16384, 65536])
+        net.link_pace = T * step / len(big)
+        net.plan_factory = lambda d: (lambda avail: (step, 0)) if d == 's2c' else make_plan(r, 'all')
+        known = r.random() < 0.5
+        blob = cbm.get_blob(hb, len(big) if known else None)
+        t0 = loop.time()
+        try:
+            got, protocol = await request_blob(loop, blob, '10.0.0.1', 3333, CT, pt)
+        except asyncio.CancelledError:
+            rec.log('request_blob_cancelled.slow_link')
+            got, protocol = 0, None
+        except Exception as e:  # noqa
+            rec.violation(f'C10/X8/request_blob-raised/{type(e).__name__}', f'slow honest transfer raised {e!r}', {'timeouts': [idle, xfer], 'T': T})
+            return
+        dt = loop.time() - t0
+        rec.hit('X1.checked')
+        rec.hit('X8.slow_transfer_checked')
+        ok = blob.get_is_verified()
+        if ok:
+            if dt > idle:
+                rec.hit('X8.slow_transfer_longer_than_idle_timeout')
+            with open(os.path.join(cdir, hb), 'rb') as f:
+                if f.read() != big:
+                    rec.violation('C10/X1/verified-blob-bytes-differ/slow_link', 'verified blob differs from what the server holds', {})
+                    return
+        else:
+            rec.violation(f'C10/X8/slow-honest-transfer-cut/{"longer" if T > idle else "shorter"}-than-idle-timeout',
+                          f'server configured idle_timeout={idle} transfer_timeout={xfer} holds a {len(big)}-byte blob; an honest client whose link '
+                          f'lets the transfer take {T:.1f} virtual s (< transfer_timeout) ended unverified after {dt:.1f} s, the server having '
+                          f'written {net.connections[0].s2c.total} bytes (header included)',
+                          {'idle_timeout': idle, 'transfer_timeout': xfer, 'transfer_needs_s': round(T, 2), 'ended_after_s': round(dt, 2),
+                           'server_wrote': net.connections[0].s2c.total, 'length': len(big), 'known_length': known, 'fragment': step})
+        first = net.connections[0]
+        if protocol is not None:
+            # the next request: on the same connection, or - when the server has meanwhile closed it as idle (its last bytes were still under
+            # way on the slow link when its idle_timeout ran out: the keep-alive race, no fault of either side) - once more on a new one
+            blob2 = cbm.get_blob(hs)
+            for attempt in (1, 2):
+                try:
+                    _, protocol = await request_blob(loop, blob2, '10.0.0.1', 3333, CT, pt, connected_protocol=protocol)
+                except asyncio.CancelledError:
+                    protocol = None
+                if blob2.get_is_verified() or attempt == 2 or not (first.server_tr._closing or first.server_tr._lost):
+                    break
+                rec.log('X8.next_request_crossed_the_idle_close')
+                protocol = None
+            if not blob2.get_is_verified():
+                rec.violation('C10/X8/next-request-after-slow-transfer-failed', f'the request for a {len(smalls[0])}-byte blob after a {dt:.1f} s '
+                              f'transfer (idle_timeout={idle}, transfer_timeout={xfer}) did not end verified (attempts: {attempt}, connections: '
+                              f'{len(net.connections)})', {'idle_timeout': idle, 'transfer_timeout': xfer, 'slow_transfer_s': round(dt, 2),
+                                                           'attempts': attempt, 'connections': len(net.connections)})
+            elif len(net.connections) == 1:
+                rec.hit('X2.sequential_on_one_connection')
+        t_last = loop.time()
+        # ---- (b) a reader that stalls mid-blob, a silent connection, an honest client meanwhile
+        net.plan_factory = lambda d: make_plan(r, 'all')
+        net.link_pace = 0.0
+        stall_tr, _ = await windowed_connect(net, _Raw, '10.0.0.1', 3333)
+        stalled = net.connections[-1]
+        stall_tr.pause_reading()
+        stall_tr.write(BlobRequest.make_request_for_blob_hash(hb).serialize())
+        silent_tr, _ = await windowed_connect(net, _Raw, '10.0.0.1', 3333)
+        silent = net.connections[-1]
+        t_b = loop.time()
+        await asyncio.sleep(min(idle, xfer) / 2)
+        blob3 = cbm.get_blob(hs2)
+        try:
+            _, protocol3 = await request_blob(loop, blob3, '10.0.0.1', 3333, CT, pt)
+        except asyncio.CancelledError:
+            protocol3 = None
+        if not blob3.get_is_verified():
+            rec.violation('C10/X5/honest-download-failed-during-hostile-client/stalled_reader', 'honest client could not download while another '
+                          'connection was stalled mid-blob', {'idle_timeout': idle, 'transfer_timeout': xfer})
+        else:
+            rec.hit('X5.concurrent_honest_ok')
+        if protocol3:
+            protocol3.close()
+        deadline = idle + xfer
+        await asyncio.sleep(deadline + 1)
+        rec.hit('X8.stalled_reader_checked')
+        rec.hit('X8.silent_connection_checked')
+        if stalled.s2c.total >= len(big):
+            rec.log('X8.window_did_not_hold_the_blob_back')
+        for name, conn, since, tight in (('stalled_reader', stalled, t_b, xfer), ('silent', silent, t_b, idle), ('idle_after_transfer', first, t_last, idle)):
+            st = conn.server_tr
+            if not st._lost and not st._closing:
+                rec.violation(f'C10/X3/server-connection-left-open/{name}', f'server (idle_timeout={idle}, transfer_timeout={xfer}) still holds the '
+                              f'{name} connection {loop.time() - since:.1f} virtual s after its last byte', {'idle_timeout': idle, 'transfer_timeout': xfer})
+            elif st.closed_at is not None and st.closed_at - since > tight + 1:
+                rec.log(f'X8.{name}_closed_later_than_its_own_timeout')
+        stall_tr.resume_reading()
+        await asyncio.sleep(0.01)
+        for conn in net.connections:
+            check_wire(rec, conn.s2c.wire, held, conn.server_tr._lost, 'slow_link')
+        rec.case(['slow_link', idle, xfer, len(big), step, known],
+                 sample={'arrangement': 'slow_link', 'idle_timeout': idle, 'transfer_timeout': xfer, 'length': len(big), 'fragment': step,
+                         'transfer_virtual_s': round(dt, 2), 'verified': ok,
+                         'stalled_reader_closed_after_s': None if stalled.server_tr.closed_at is None else round(stalled.server_tr.closed_at - t_b, 2),
+                         'stalled_reader_got_bytes': stalled.s2c.total,
+                         'silent_closed_after_s': None if silent.server_tr.closed_at is None else round(silent.server_tr.closed_at - t_b, 2)})
+        for t in (stall_tr, silent_tr):
+            t.close()
+        if protocol:
+            protocol.close()
+        server.stop_server()
         sbm.stop()
         cbm.stop()
         await sst.close()
